@@ -250,6 +250,11 @@ func runBatches(ctx *runCtx, batches []batch, parallel int, onDeath func(b batch
 				res.Merged = true
 			}
 			mergeMu.Unlock()
+			if b.Race && res.Merged && res.ExitCode == 66 {
+				// the race detector's exit code when it reported races (halt_on_error=0):
+				// the workload itself completed; the reports are read from the log files
+				res.ExitCode = 0
+			}
 			if (!res.Merged || res.ExitCode != 0) && onDeath != nil {
 				onDeath(b, res, tailFile(logPath, 6000))
 			}
